@@ -56,6 +56,8 @@ def absorb(ck, res, vectors, kind):
         ck.cov["distinct_nontrivial"] += r["nontrivial"]
         ck.notes["programs"] = ck.notes.get("programs", 0) + r["programs"]
         ck.notes["mismatching_runs"] = ck.notes.get("mismatching_runs", 0) + r["mis_count"]
+        if r.get("sample") and len(ck.cov["samples"]) < 6 and ck.rng.random() < 0.02:
+            ck.sample(r["sample"])
         sampled = 0
         for m in r["mismatches"]:
             sampled += 1
@@ -78,18 +80,57 @@ def absorb(ck, res, vectors, kind):
                         ck.viol_count += extra
 
 
+def corpus_vectors(ck, h, quick):
+    extra = []
+    if not quick:
+        # thorough: a seeded sample of the grammar generator's sources under every layout
+        gen = corpus.generated(ck, "quick")
+        ck.rng.shuffle(gen)
+        extra = gen[:6000]
+        ck.notes["generated_sources"] = len(extra)
+    cl = corpus.classified(h, extra)
+    srcs = [s for s, _ in cl]
+    if quick:
+        # all tricky sources plus a seeded sample of the rest; thorough runs everything
+        idx = list(range(len(srcs)))
+        ck.rng.shuffle(idx)
+        tricky = set(corpus.TRICKY)
+        keep = set(idx[:800]) | {i for i, s in enumerate(srcs) if s in tricky}
+        srcs = [s for i, s in enumerate(srcs) if i in keep]
+    cvecs = []
+    for i, s in enumerate(srcs):
+        stopats = [""]
+        if "$$" in s:
+            stopats.append("$$")
+        cvecs.append({"src": s, "langs": corpus.VARIANTS, "kcs": [True, False], "stopats": stopats,
+                      "seed": ck.seed * 7919 + i, "nrandom": 8 if quick else 32,
+                      "max_splits": 120 if quick else 400, "tag": "corpus"})
+    return cvecs
+
+
 def run(ck):
+    import time, shutil
+    from concurrent.futures import ThreadPoolExecutor
     h = vlib.build_harness("synaux")
     quick = ck.tier == "quick"
-    # ---- (1) the contract model
-    import time
+    ex = ThreadPoolExecutor(max_workers=3)
+    # ---- (1) the contract model; the self-test model and the corpus replay run alongside
     t0 = time.time()
-    t = vlib.run_tlc("ShLexBuf", "ShLexBuf.%s.cfg" % ck.tier, workers=8 if quick else 16, timeout=1500)
+    f_main = ex.submit(vlib.run_tlc, "ShLexBuf", "ShLexBuf.%s.cfg" % ck.tier, workers=8 if quick else 16, timeout=1500)
+    f_self = ex.submit(vlib.run_tlc, "ShLexBuf", "ShLexBuf.selftest.cfg", workers=2, timeout=600)
+
+    def corpus_job():
+        t1 = time.time()
+        cv = corpus_vectors(ck, h, quick)
+        r = vlib.run_harness(h, "chunksrc", cv, shards=6 if quick else 12, timeout=1700)
+        return cv, r, round(time.time() - t1, 1)
+    f_corpus = ex.submit(corpus_job)
+    t = f_main.result()
     ck.notes["t_tlc"] = round(time.time() - t0, 1)
     ck.add_tlc(t)
     if not t.ok:
         raise vlib.Inconclusive("ShLexBuf: contract model inconsistent:\n" + (t.violation or t.raw_tail))
-    st = vlib.run_tlc("ShLexBuf", "ShLexBuf.selftest.cfg", workers=4, timeout=300)
+    st = f_self.result()
     ck.add_tlc(st)
     if st.ok or "PeekTruth" not in (st.violation or ""):
         raise vlib.Inconclusive("ShLexBuf self-test: Loops=FALSE (single refill) did not violate PeekTruth; "
@@ -107,47 +148,31 @@ def run(ck):
     ck.notes["model_behaviours"] = len(vecs)
     ck.notes["model_inputs"] = len(groups)
     ck.notes["model_behaviours_with_refill_in_lookahead"] = sum(1 for v in vecs if v["nontrivial"])
+    # ---- (2) replay of every (src, schedule) through the template table
     work = vlib.scratch("c07-")
     try:
         tpath = os.path.join(work, "templates.json")
         with open(tpath, "w") as f:
             json.dump(stat[0], f)
-        gvecs = [{"mode": m, "src": list(s), "scheds": sc, "seed": ck.seed * 1000003 + i}
+        gvecs = [{"mode": m, "src": list(s), "scheds": sc, "seed": ck.seed * 1000003 + i, "all_langs": not quick}
                  for i, ((m, s), sc) in enumerate(sorted(groups.items()))]
         t0 = time.time()
         res = vlib.run_harness(h, "chunkvec", gvecs, args=[tpath], shards=12, timeout=1700)
         ck.notes["t_chunkvec"] = round(time.time() - t0, 1)
         absorb(ck, res, gvecs, "vec")
     finally:
-        import shutil
         shutil.rmtree(work, ignore_errors=True)
     # ---- (3) corpus x generic schedules
-    cl = corpus.classified(h)
-    srcs = [s for s, _ in cl]
-    if quick:
-        # all tricky/short sources plus a seeded sample of the rest; thorough runs everything
-        idx = list(range(len(srcs)))
-        ck.rng.shuffle(idx)
-        keep = set(idx[:1500]) | {i for i, s in enumerate(srcs) if s in set(corpus.TRICKY)}
-        srcs = [s for i, s in enumerate(srcs) if i in keep]
-    cvecs = []
-    for i, s in enumerate(srcs):
-        stopats = [""]
-        if "$$" in s:
-            stopats.append("$$")
-        cvecs.append({"src": s, "langs": corpus.VARIANTS, "kcs": [True, False], "stopats": stopats,
-                      "seed": ck.seed * 7919 + i, "nrandom": 8 if quick else 32,
-                      "max_splits": 120 if quick else 400, "tag": "corpus"})
+    cvecs, res, tc = f_corpus.result()
     ck.notes["corpus_sources"] = len(cvecs)
-    t0 = time.time()
-    res = vlib.run_harness(h, "chunksrc", cvecs, shards=12, timeout=1700)
-    ck.notes["t_chunksrc"] = round(time.time() - t0, 1)
+    ck.notes["t_chunksrc"] = tc
     absorb(ck, res, cvecs, "src")
     ck.cov["exhaustive"] = True
     ck.cov["rule"] = ("evaluations = parses of a concrete program through one reader schedule compared with the parse of the "
                       "same bytes offered at once (plus the reference parses); distinct_nontrivial = runs in which the parser "
                       "called Read more than twice (the input really arrived in several pieces); exhaustive = every class "
-                      "string up to the bound x every legal schedule x every template of the mode")
+                      "string up to the bound x every legal schedule x every template of the mode (quick: in the template's "
+                      "primary variant and one rotating variant; thorough: in every listed variant)")
     ck.assumptions += ["the reader is well behaved: it delivers exactly the input bytes, in order, and keeps returning EOF",
                        "read errors other than EOF are out of scope",
                        "byte classes are instantiated by one representative byte each (table ClassBytes in the spec)"]
